@@ -880,6 +880,37 @@ fn gate_listing_case(np: usize, nq: usize, with_std: bool, out: &mut Vec<Failure
     text
 }
 
+/// A user gate that takes the name of a standard-library gate before the include: the first
+/// binding stays, the include reports the clash, and every other library gate is still listed.
+fn gate_clash_case(clash: &[&str], out: &mut Vec<Failure>) -> String {
+    let mut text = String::new();
+    for n in clash {
+        text.push_str(&format!("gate {n}(p0) a, b, c {{ }}\n"));
+    }
+    text.push_str("include \"stdgates.inc\";\n");
+    if let Ok(res) = analyze(&text) {
+        let mut got: Vec<(String, usize, usize)> = res.symbol_table().gates().map(|(n, _, a, b)| (n.to_string(), a, b)).collect();
+        let mut want: Vec<(String, usize, usize)> = STD_GATES.iter().map(|(n, a, b)| if clash.contains(n) { (n.to_string(), 1, 3) } else { (n.to_string(), *a, *b) }).collect();
+        got.sort();
+        want.sort();
+        if got != want {
+            let missing: Vec<&String> = want.iter().filter(|w| !got.contains(w)).map(|w| &w.0).collect();
+            let extra: Vec<&(String, usize, usize)> = got.iter().filter(|g| !want.contains(g)).collect();
+            out.push(Failure::new(
+                format!("C09:gate-listing:user-gate-named-like-a-library-gate:{}", if clash.len() == 1 { "one" } else { "several" }),
+                json!({"input": {"source": text}, "expected": "all standard gates, the clashing names with the user's arity (1,3)", "actual": format!("missing {missing:?}, unexpected {extra:?}")}),
+            ));
+        }
+        let mut errs = vec![];
+        all_semantic_errors(res.semantic_errors(), &mut errs);
+        let n_redecl = errs.iter().filter(|e| e.0.starts_with("RedeclarationError")).count();
+        if n_redecl != clash.len() {
+            out.push(Failure::new("C09:gate-listing:clash-not-diagnosed-once-per-name", json!({"input": {"source": text}, "expected": clash.len(), "actual": n_redecl})));
+        }
+    }
+    text
+}
+
 pub fn replay_c09(v: &serde_json::Value) -> Result<Vec<Failure>, String> {
     let text = v["input"]["source"].as_str().ok_or("no input.source")?;
     let key = v["key"].as_str().unwrap_or("");
@@ -913,12 +944,28 @@ pub fn replay_c09(v: &serde_json::Value) -> Result<Vec<Failure>, String> {
             }
         }
     }
+    for cl in clash_sets() {
+        let mut o = vec![];
+        let names: Vec<&str> = cl.iter().map(|s| s.as_str()).collect();
+        if gate_clash_case(&names, &mut o) == text {
+            return Ok(o);
+        }
+    }
     // otherwise: the generic joint walk cannot be replayed from text
     Err("case not found in the enumeration".into())
 }
 
+fn clash_sets() -> Vec<Vec<String>> {
+    let mut v: Vec<Vec<String>> = STD_GATES.iter().map(|(n, _, _)| vec![n.to_string()]).collect();
+    // several clashes, in and against library order, within one arity group and across groups
+    for set in [vec!["x", "h"], vec!["h", "x"], vec!["id", "cx", "cswap"], vec!["u3", "p", "y"], vec!["cu", "ccx"], vec!["CX", "swap", "ch", "cz"]] {
+        v.push(set.into_iter().map(|s| s.to_string()).collect());
+    }
+    v
+}
+
 pub fn run_c09(ctx: &RunCtx) {
-    ctx.set_rule("every declaration form (classical, const, input/output, def parameter, for variable, complex, bit register, qubit register, def qubit parameter, def return type; at global scope, in an if block, in a def body) x scalar types x widths {1,2,7,8,31,32,63,64,2^16,2^31,2^32-1,2^32,2^32+1,2^33,2^64,2^128-1} written as a literal in 5 spellings and through a const identifier of 3 types, and through a const identifier next to a different same-named binding in a parameter list, body, earlier block, def, gate or for loop (11 shadowing forms; a parameter of the same name as the constant is not judged: whether a signature sees earlier parameters is not stated by the property); negative / non-constant / undeclared / expression designators; gate signatures with 0-4 parameters and 1-4 qubits with and without stdgates; random widths across [1, 2^33] (thorough). oracle: the symbol's type equals the written type; a width that does not fit is diagnosed and never silently replaced; gates() lists exactly user + standard gates with their arities. non-trivial = a designator is present or the symbol is a gate/def; distinct by (form, type, width spelling, scope)");
+    ctx.set_rule("every declaration form (classical, const, input/output, def parameter, for variable, complex, bit register, qubit register, def qubit parameter, def return type; at global scope, in an if block, in a def body) x scalar types x widths {1,2,7,8,31,32,63,64,2^16,2^31,2^32-1,2^32,2^32+1,2^33,2^64,2^128-1} written as a literal in 5 spellings and through a const identifier of 3 types, and through a const identifier next to a different same-named binding in a parameter list, body, earlier block, def, gate or for loop (11 shadowing forms; a parameter of the same name as the constant is not judged: whether a signature sees earlier parameters is not stated by the property); negative / non-constant / undeclared / expression designators; gate signatures with 0-4 parameters and 1-4 qubits with and without stdgates; a user gate named like each of the 32 standard gates (and 6 sets of several) declared before the include; random widths across [1, 2^33] (thorough). oracle: the symbol's type equals the written type; a width that does not fit is diagnosed and never silently replaced; gates() lists exactly user + standard gates with their arities. non-trivial = a designator is present or the symbol is a gate/def; distinct by (form, type, width spelling, scope)");
     ctx.assume("the return type of a subroutine is compared up to const-ness; alias symbols are not judged");
     let mut cases: Vec<DeclCase> = vec![];
     for w in WIDTHS {
@@ -1003,6 +1050,17 @@ pub fn run_c09(ctx: &RunCtx) {
                     ctx.eval_local("C09", &mut st, rep);
                 }
             }
+        }
+        for cl in clash_sets() {
+            let mut rep = CaseReport::default();
+            let names: Vec<&str> = cl.iter().map(|s| s.as_str()).collect();
+            let text = gate_clash_case(&names, &mut rep.failures);
+            rep.class("gate-name-clash");
+            rep.nontrivial = Some(fnv64(text.as_bytes()));
+            if cl.len() == 3 {
+                rep.sample = Some(text);
+            }
+            ctx.eval_local("C09", &mut st, rep);
         }
         ctx.merge_stats(st);
     }
